@@ -106,6 +106,10 @@ def obligations():
         for pi, (kind, s2, v) in enumerate(outs):
             info["paths"] += 1
             meta = {"trace": list(s2.trace), "havoc": list(s2.ghost.get("havoc", ()))}
+            if kind == "exc" and v.cls in (NameError, UnboundLocalError):
+                # the block now reads a local that is set earlier in the loop body, outside the slice executed here
+                info["unsupported"].append(f"direction block depends on a local defined outside it ({v.note})")
+                continue
             if kind == "exc":
                 obs.append(Obligation(f"{KEY}/leaf-direction/p{pi}/raises.{v.cls.__name__}", "raises", list(s2.pc),
                                       z3.BoolVal(False), KEY, "leaf-direction", pi, meta))
